@@ -152,4 +152,5 @@ UNITS = [u_padded, u_projector, lambda: u_projector(True)]
 RT = True
 TRUSTED = ["matrix layer (ring laws, transposes, Frobenius norm as trace); zero padding as a block matrix [A 0]",
            "assumed external contracts (conformance-tested at run time): orthogonal_procrustes returns an orthogonal minimiser of ||A R - B||_F; thin SVD; LinearRegression.fit/coef_",
-           "cited: a partial isometry never increases the norm (||X Omega|| <= ||X||); uniqueness of the Procrustes minimiser for full-rank X gives recovery of an exact rotation (bounded check at run time)"]
+           "a partial isometry never increases the norm (||x Omega|| <= ||x||): Lean theorem partial_isometry_norm_le (lemmas/lean/Lemmas.lean, machine-checked); cited: uniqueness of the Procrustes minimiser for full-rank X gives recovery of an exact rotation (bounded check at run time)"]
+LEAN_LEMMAS = "lemmas/lean/Lemmas.lean"
